@@ -5,6 +5,11 @@ _CACHE_STREAM = {"name": "cache", "quick": 30000, "thorough": 400000, "thorough_
 _FRAG_STREAM = {"name": "frag", "quick": 25000, "thorough": 400000, "thorough_seeds": 3, "stateful": True, "seq_start": ("frag-new", "mb-new")}
 
 _KE_STREAM = {"name": "ke", "quick": 30000, "thorough": 400000, "thorough_seeds": 3, "stateful": True, "seq_start": "reset"}
+_NODE_STREAM = {"name": "node", "quick": 20000, "thorough": 400000, "thorough_seeds": 2, "stateful": True, "seq_start": "n-new"}
+_NODE_RULE = ("`node`: one kademlia.DHTNode under the fake clock (bin/corr26): ids placed around the local id so that buckets fill and "
+              "evict (peer cache 0..300, data cache 0..20), AddPeer/RemovePeer/GetPeer, HandlePut (TTL 0..2^40 ms), local Put, "
+              "HandleGet, HandleFindNode with limits -1..2^31, keys of 0..40 bytes; compared: every answer, the closer lists "
+              "(order inside runs of equidistant peers is the map's), the data count.")
 _KET_STREAM = {"name": "ket", "quick": 30000, "thorough": 600000, "thorough_seeds": 3, "stateful": True, "seq_start": "t-reset"}
 _KET_RULE = ("`ket`: two real channels with their REAL timers under the fake clock of testing/synctest (bin/corr26, go1.26; crypto/rand "
              "seeded so that hash tie-breaks replay): ops send (done context), pend/unpend (a caller blocked in getOrInit), deliver any "
@@ -52,7 +57,11 @@ PROPS = {
     "C13": {"streams": [_HUB_STREAM], "oracles": ["hub", "swarm"], "rule": _HUB_RULE, "assumptions": _HUB_ASSUME, "oracle_n": {"quick": 100, "thorough": 2000}},
     "C12": {"streams": [_HUB_STREAM], "oracles": ["hub", "swarm"], "rule": _HUB_RULE, "assumptions": _HUB_ASSUME, "oracle_n": {"quick": 100, "thorough": 2000}},
     "C11": {"streams": [_HUB_STREAM, _FRAG_STREAM], "oracles": ["hub", "swarm"], "rule": _HUB_RULE, "assumptions": _HUB_ASSUME, "oracle_n": {"quick": 100, "thorough": 2000}},
-    "C14": {"streams": [_HUB_STREAM], "oracles": ["hub"], "rule": _HUB_RULE, "level": "proof",
+    "C14": {"streams": [_HUB_STREAM, {"name": "frag", "quick": 15000, "thorough": 300000, "thorough_seeds": 2, "stateful": True, "seq_start": ("frag-new", "mb-new")}],
+            "oracles": ["hub", "frag"], "oracle_n_by": {"frag": {"quick": 3000, "thorough": 100000}},
+            "rule": _HUB_RULE + " Buffer ownership above the hubs: in the frag, ke and ket streams every packet is handed to the layer in a "
+                    "buffer that the harness overwrites as soon as the call returns (hx.Lend/Reclaim), as a transport that reuses its receive "
+                    "buffers does; a layer that keeps a reference instead of a copy delivers corrupted bytes, which the model does not.", "level": "proof",
             "assumptions": _HUB_ASSUME + ["data-race freedom under the Go memory model is NOT claimed (no model represents happens-before); "
                                           "only buffer ownership in the queue and hubs is proved"], "oracle_n": {"quick": 100, "thorough": 2000}},
     "C04": {"streams": [_KE_STREAM], "oracles": ["secure", "ke"], "oracle_n": {"quick": 12, "thorough": 300},
@@ -77,7 +86,8 @@ PROPS = {
                         {"name": "addr", "quick": 8000, "thorough": 200000, "thorough_seeds": 2},
                         {"name": "cache", "quick": 10000, "thorough": 200000, "thorough_seeds": 2, "stateful": True, "seq_start": "new"},
                         {"name": "dht", "quick": 1500, "thorough": 50000, "thorough_seeds": 2},
-                        {"name": "ke", "quick": 12000, "thorough": 200000, "thorough_seeds": 2, "stateful": True, "seq_start": "reset"}],
+                        {"name": "ke", "quick": 12000, "thorough": 200000, "thorough_seeds": 2, "stateful": True, "seq_start": "reset"},
+                        {"name": "node", "quick": 8000, "thorough": 150000, "thorough_seeds": 2, "stateful": True, "seq_start": "n-new"}],
             "oracles": ["mux", "frag", "key", "addr", "dht"],
             "oracle_n": {"quick": 1500, "thorough": 50000},
             "rule": "every correspondence stream doubles as a crash detector: a panic in the implementation is the observation `fault`, which the "
@@ -131,9 +141,9 @@ PROPS = {
         "assumptions": ["slices.SortFunc yields some permutation sorted by the comparator (ties in any order)"],
     },
     "C20": {
-        "streams": [{"name": "dht", "quick": 4000, "thorough": 150000, "thorough_seeds": 3}],
-        "oracles": ["dht"],
-        "rule": "one case = one iterative operation (findnode/join/get/put) against a simulated network of 1-40 nodes with honest, "
+        "streams": [{"name": "dht", "quick": 4000, "thorough": 150000, "thorough_seeds": 3}, _NODE_STREAM],
+        "oracles": ["dht", "node"],
+        "rule": _NODE_RULE + " `dht`: one case = one iterative operation (findnode/join/get/put) against a simulated network of 1-40 nodes with honest, "
                 "failing and adversarial tables (cycles, self references, the zero id, fabricated ids, 60-entry lists, ids sharing "
                 "long prefixes with the key), 0-7 initial peers with duplicates; non-trivial = more than one node contacted; "
                 "compared: the exact sequence of RPCs and the whole result struct",
